@@ -232,6 +232,29 @@ def oracle(rc, st):
     for o, ln in zip(outs, jlines):
         if json.loads(o) != json.loads(ln):
             raise Violation("filter_output", "identity filter changed %r into %r" % (ln[:200], o[:200]))
+    # text input (what `python -m eliot.filter` reads from sys.stdin) and an expression that edits J in place
+    tlines = []
+    for ln, (c, v) in zip(kept, classes):
+        if c == "eliot":
+            try:
+                tlines.append(ln.decode("utf-8"))
+            except UnicodeDecodeError:
+                pass
+    for expr in ("J.update(redacted=True) or J", "J.pop('task_level', None) and None or J", "J"):
+        out = io.StringIO()
+        try:
+            EliotFilter(expr, tlines, out).run()
+        except Exception as ex:  # noqa
+            raise Violation(("filter_abort", {"exc": type(ex).__name__}), "EliotFilter(%r) raised %s: %s" % (expr, type(ex).__name__, ex))
+        got = [x for x in out.getvalue().split("\n") if x]
+        if len(got) != len(tlines):
+            raise Violation("filter_output", "EliotFilter(%r) wrote %d lines for %d inputs" % (expr, len(got), len(tlines)))
+        for o, ln in zip(got, tlines):
+            J = json.loads(ln)
+            want = eval(expr, {}, {"J": J})
+            if json.loads(o) != want:
+                raise Violation(("filter_output", {"expr": "in_place" if expr != "J" else "identity"}),
+                                "EliotFilter(%r) wrote %r, the expression's value is %r" % (expr, o[:200], want))
     elines = [ln for ln, (c, v) in zip(kept, classes) if c == "eliot"]
     out = io.StringIO()
     expr = "SKIP if len(J['task_level']) %% %d == %d else J['task_level']" % (2 + st.choose(2, "mod"), st.choose(2, "rem"))
